@@ -90,12 +90,20 @@ def main(argv):
     if b["driver_ok"]:
         sl_simple = [r.get("simple") for r in leandrv.run_batch(lower_common.model_requests([(s_, (c_[1], c_[2])) for s_, c_ in sl_items]))]
     covered = 0
+    from common import load_known_findings
+    known_all = load_known_findings("C01")
     for (src, cfg), simple in zip(sl_items, sl_simple):
         v, text = gen_prog.behaviour_check(ol, src, cfg)
         ck.case(f"{cfg}|{src}", nontrivial=not v.startswith("skip"))
         ck.count("straight_line:" + v.split(":")[0])
         if simple and not v.startswith("skip"):
             covered += 1
+        if v.startswith("fail") and cfg[2] == "short_circuit" and "log.append('bool:%r' % (s.v,))" in src:
+            # KF-D61b: does the difference vanish when the truth test of the condition objects has no visible effect?
+            v2, _ = gen_prog.behaviour_check(ol, src.replace("log.append('bool:%r' % (s.v,))", "None"), cfg)
+            if v2 == "ok" and any(k["kf"] == "KF-D61b" and k.get("status") == "open" for k in known_all):
+                ck.count("attributed_to_KF-D61b")
+                continue
         if v.startswith("fail"):
             failing.append(("straight-line" + (" (inside the hypothesis of C01.module_straightline_semantics)" if simple else ""), src, cfg, v, text))
     ck.count("theorem_module_straightline_covers", covered)
@@ -134,6 +142,18 @@ def main(argv):
             v, _ = gen_prog.behaviour_check(ol, k["witness"]["source"], tuple(k["witness"].get("config", gen_prog.CONFIGS[0])))
             if v.startswith("fail"):
                 ck.known(k["kf"], k["what"])
+    # regression corpus: the witnesses of the repaired defects (a `fixed` record suppresses nothing)
+    for k in load_known_findings():
+        w = k.get("witness", {})
+        behavioural = set(k.get("properties", [])) & {"C01", "C05", "C06", "C07", "C09", "C11", "C12", "C13", "C14"}
+        if k.get("status") == "fixed" and isinstance(w.get("source"), str) and behavioural and "C08" not in k.get("properties", []):
+            cfgs_w = [tuple(w["config"])] if "config" in w else [gen_prog.CONFIGS[0], gen_prog.CONFIGS[7]]
+            for cfg in cfgs_w:
+                v, text = gen_prog.behaviour_check(ol, w["source"], cfg)
+                ck.case(f"regression|{cfg}|{w['source']}", nontrivial=not v.startswith("skip"))
+                ck.count("regression_corpus:" + v.split(":")[0])
+                if v.startswith("fail"):
+                    failing.append(("regression of " + k["kf"], w["source"], cfg, v, text))
     failing.sort(key=lambda f: len(f[1]))
     for name, src, cfg, v, text in failing[:3]:
         ck.violation({"kind": "behaviour", "case": name, "source": src, "config": list(cfg), "observed": v, "converted": text,
